@@ -127,7 +127,8 @@ Out(n, m, mu, st) == [name |-> n, mark |-> m, must |-> mu, style |-> st]
 MustRules == Out("must_rules", "m0", FALSE, "none")
 Outs == { Out("a", "m0", FALSE, "none"), Out("b", "m1", FALSE, "none"), Out("a", "mMax", TRUE, "param"),
           Out("b", "m0", TRUE, "prefix"), Out("direct", "m1", FALSE, "none"), Out("block", "m0", FALSE, "none"), MustRules }
-OutsDeep == { Out("a", "m0", FALSE, "none"), Out("b", "m1", FALSE, "none"), Out("b", "m0", TRUE, "prefix"), MustRules }
+\* ("a", m0) with and without must: two outbounds that differ in nothing but the must flag (merging them is a change of meaning)
+OutsDeep == { Out("a", "m0", FALSE, "none"), Out("a", "m0", TRUE, "param"), Out("b", "m1", FALSE, "none"), Out("b", "m0", TRUE, "prefix"), MustRules }
 Fallbacks == { Out("c", "m0", FALSE, "none"), Out("direct", "m1", TRUE, "prefix") }
 
 (* ------------------------------------------------------------------ property layer *)
